@@ -135,8 +135,9 @@ def do_spec(c):
             return {"error": "layout", "msg": "%s has dims %r shape %r" % (nm, v.dims, v.shape)}
         res[nm] = out(v.values)
     v = s.wave_speed()
-    v = v.transpose(*(tuple(c["lead_dims"]) + ("frequency",)))
-    if tuple(v.shape) != lead + (nf,):
+    # like wavenumber / wavelength / group_velocity: points first, frequency last (the source says so in a comment);
+    # a caller reads element [i, j] as point i at frequency j
+    if tuple(v.shape) != lead + (nf,) or tuple(v.dims) != tuple(c["lead_dims"]) + ("frequency",):
         return {"error": "layout", "msg": "wave_speed has dims %r shape %r" % (v.dims, v.shape)}
     res["wave_speed"] = out(v.values)
     res["radian_frequency"] = out(s.radian_frequency.values)
